@@ -424,6 +424,52 @@ def run(ctx):
                             if not (kept and again and kept2):
                                 ctx.violation("%s:%s:%s->%s:callers-container-changed:%s" % (kind, qt, u, v, label), {"held": repr(before)[:120], "holds": repr(box)[:120], "same_answer_twice": bool(again), "db": kind}, replay={"kind": kind, "qt": qt, "u": u, "v": v, "x": 12.5})
                 ctx.count("caller's containers looked at after a conversion", n_kept)
+                # an answer is the caller's as well: it still holds the converted amounts after *other* arrays of the same shape
+                # went through the same (and other) conversions - to the base unit, from it, between two other units
+                n_ans = 0
+                for qt, us in sorted(by_qt.items()):
+                    if qt == "Unknown" or len(us) < 2:
+                        continue
+                    base = db.GetBaseUnit(qt)
+                    for u, v in [(u, base) for u in us if u != base][:6] + [(base, u) for u in us if u != base][:3] + [(us[-1], us[1 if us[1] != us[-1] else 0])]:
+                        if u == v:
+                            continue
+                        ctx.ev()
+                        n_ans += 1
+                        x1, x2 = np.array([12.5, -3.0, 0.25, 1000.0]), np.array([7.0, 8.0, 9.0, -10.0])
+                        try:
+                            want1 = [db.Convert(qt, u, v, float(t)) for t in x1]
+                            r1 = db.Convert(qt, u, v, x1)
+                            r2 = db.Convert(qt, u, v, x2)
+                            r3 = db.Convert(qt, v, u, np.array([1.0, 2.0, 3.0, 4.0]))
+                            ok = [float(t) for t in r1] == want1 and r1 is not r2 and r1 is not r3 and not np.shares_memory(r1, r2)
+                        except Exception as e:
+                            ctx.violation("%s:%s:%s->%s:answers-kept-raised" % (kind, qt, u, v), {"error": repr(e)[:200], "db": kind})
+                            continue
+                        if not ok:
+                            ctx.violation("%s:%s:%s->%s:an-earlier-answer-changed-when-another-array-was-converted" % (kind, qt, u, v), {"first_answer_now": repr(r1)[:120], "was": want1, "db": kind}, replay={"kind": kind, "qt": qt, "u": u, "v": v, "x": 12.5})
+                ctx.count("earlier answers looked at after later conversions", n_ans)
+                # long lists and tuples (1 000 items and more) are the same amounts, item by item, as the scalar route gives
+                n_long = 0
+                for qt, us in sorted(by_qt.items()):
+                    if qt == "Unknown" or len(us) < 2 or n_long >= 40:
+                        continue
+                    u, v = us[0], us[-1]
+                    for n_items in (1000, 4097):
+                        vals = [0.1 * (i - n_items // 3) + 1e-7 * i for i in range(n_items)]
+                        idx = [0, 1, 2, n_items // 2, n_items - 2, n_items - 1]
+                        for label, mk in (("list", list), ("tuple", tuple)):
+                            ctx.ev()
+                            n_long += 1
+                            try:
+                                got = db.Convert(qt, u, v, mk(vals))
+                                back = db.Convert(qt, v, u, got)
+                                ok = type(got) is type(mk([])) and len(got) == n_items and all(got[i] == db.Convert(qt, u, v, vals[i]) for i in idx) and all(back[i] == db.Convert(qt, v, u, got[i]) for i in idx)
+                            except Exception as e:
+                                ok = repr(e)[:160]
+                            if ok is not True:
+                                ctx.violation("%s:%s:%s->%s:long-%s-differs-from-the-scalar-route" % (kind, qt, u, v, label), {"items": n_items, "problem": ok, "db": kind}, replay={"kind": kind, "qt": qt, "u": u, "v": v, "x": vals[1]})
+                ctx.count("long lists / tuples converted", n_long)
             # slope sign of every unit (strictly increasing maps)
             if ctx.shard == 0:
                 for u, a in aff.items():
